@@ -34,12 +34,12 @@ def bitsOfAux : Nat → UInt64 → List Nat → List Nat
 
 def bitsOf (b : UInt64) : List Nat := bitsOfAux 64 b []
 
-/-- `count_ones` -/
-def popCount (b : UInt64) : Nat :=
-  let b : UInt64 := b - ((b >>> (1 : UInt64)) &&& 0x5555555555555555)
-  let b : UInt64 := (b &&& 0x3333333333333333) + ((b >>> (2 : UInt64)) &&& 0x3333333333333333)
-  let b : UInt64 := (b + (b >>> (4 : UInt64))) &&& 0x0F0F0F0F0F0F0F0F
-  ((b * 0x0101010101010101) >>> (56 : UInt64)).toNat
+/-- `count_ones`: clear the lowest set bit until nothing is left, counting the steps -/
+def popLoop : Nat → UInt64 → Nat → Nat
+  | 0, _, acc => acc
+  | fuel + 1, b, acc => if b == 0 then acc else popLoop fuel (blsr b) (acc + 1)
+
+def popCount (b : UInt64) : Nat := popLoop 64 b 0
 
 /-- `_pext_u64` by its ISA definition: gather the bits of `x` selected by `mask` into the low bits -/
 def pextAux : Nat → UInt64 → UInt64 → Nat → UInt64 → UInt64
